@@ -1,4 +1,4 @@
-From BB Require Import Base TM Ref InstrsModel TapeModel ReasonModel.
+From BB Require Import Base TM Ref InstrsModel TapeModel ReasonModel StepSim BackstepSound.
 From BB.Properties Require Import C04.
 
 Check C04_bw_halt_refuted_F1 :
@@ -12,3 +12,33 @@ Check C04_bw_mono : forall sw comp d d', d <= d' ->
   (cant_halt_sw sw comp d <> Ok BwStepLimit -> cant_halt_sw sw comp d' = cant_halt_sw sw comp d) /\
   (cant_blank_sw sw comp d <> Ok BwStepLimit -> cant_blank_sw sw comp d' = cant_blank_sw sw comp d) /\
   (cant_spin_out_sw sw comp d <> Ok BwStepLimit -> cant_spin_out_sw sw comp d' = cant_spin_out_sw sw comp d).
+
+Check C04_backstep_exact : forall (P : prog) q z q' z' t pr sh,
+  tm_step P (q, z) = Some (q', z') ->
+  P (q, zc z) = Some (pr, sh, q') ->
+  bs_conc t z' ->
+  pulls_indef t sh = false ->
+  check_step t sh pr = true /\ bs_conc (backstep t sh (zc z)) z.
+Check C04_indef_covers : forall (P : prog) q c pr sh k z z' t b,
+  P (q, c) = Some (pr, sh, q) ->
+  (1 <= k)%nat ->
+  sweep_run P q c k z z' ->
+  bs_conc t z' ->
+  check_spinout t sh c = Some b ->
+  bs_conc (push_indef t sh) z.
+Check C04_check_spinout_spec : forall t sh read b,
+  check_spinout t sh read = Some b <->
+  let pull := if sh then bs_lspan t else bs_rspan t in
+  let push := if sh then bs_rspan t else bs_lspan t in
+  bs_scan t = read /\ sp_blocks pull = [] /\
+  (sp_end pull = EndBlanks \/ sp_blocks push <> []) /\
+  b = negb (bspan_matches_color push (bs_scan t)).
+Check C04_plain_round_sound : forall sw comp cfgs cfg bl vs cfgs' indefs bl' q z q' z' pr sh,
+  In cfg cfgs -> c_state cfg = q' -> bs_conc (c_tape cfg) z' ->
+  to_prog comp (q, zc z) = Some (pr, sh, q') ->
+  tm_step (to_prog comp) (q, z) = Some (q', z') ->
+  get_valid_steps sw cfgs (get_entrypoints comp) = Ok vs ->
+  step_configs vs bl = inl (cfgs', indefs, bl') ->
+  (q = q' -> check_spinout (c_tape cfg) sh (zc z) = None \/
+             (check_spinout (c_tape cfg) sh (zc z) = Some false /\ sw_nodrop sw = true)) ->
+  round_covered cfgs' indefs bl' (c_tape cfg) sh q z.
